@@ -100,7 +100,15 @@ func genWKB(t *rapid.T) ([]byte, string, bool) {
 						}
 					}
 				}
-				v := rapid.OneOf(rapid.SampledFrom(hostileCounts), rapid.Uint32Range(1<<16, 1<<24), rapid.Uint32()).Draw(t, "cv")
+				// counts whose product with an element size wraps around 2^32 to a small number: ceil(j*2^32/s) plus a little,
+				// for element sizes s up to 64 (8, 9, 16, 21, 24 are the sizes of this format's elements) - the values at
+				// which a size check done in 32-bit arithmetic passes
+				wrap := rapid.Custom(func(t *rapid.T) uint32 {
+					sz := uint64(rapid.OneOf(rapid.SampledFrom([]int{8, 9, 16, 21, 24, 5, 4, 32}), rapid.IntRange(2, 64)).Draw(t, "wrapsize"))
+					j := uint64(rapid.IntRange(1, int(sz)-1).Draw(t, "wrapj"))
+					return uint32((j<<32+sz-1)/sz + uint64(rapid.IntRange(0, 3).Draw(t, "wrapextra")))
+				})
+				v := rapid.OneOf(rapid.SampledFrom(hostileCounts), rapid.Uint32Range(1<<16, 1<<24), rapid.Uint32(), wrap).Draw(t, "cv")
 				putU32(data, lay.Counts[i], lay.CountBE[i], v)
 			} else { // a point has no count: make it a line string header with a hostile count
 				data = []byte{1, 2, 0, 0, 0, 0, 0, 0, 0x10}
@@ -639,7 +647,7 @@ func spec() vkit.Spec[Case] {
 		ID: "C07",
 		Rule: "rapid: inputs <=64 KiB for wkb.Decode, hex.Decode, geojson.Decode and geojson.FromGeoJSON. WKB/hex: valid encodings of random nested geometries (mixed byte orders) " +
 			"mutated by truncation (one drawn offset, or all prefixes exhaustively), 1-4 bit flips, count fields overwritten with hostile values (0,1,2,2^16..2^24 mostly, 2^28, 2^31, " +
-			"2^32-1, byte-swapped small counts; 1.7% of the base encodings carry a really present array of 1024-3000 points so that a count can be inflated behind full read blocks), unknown/extended type codes, bad byte-order flags, 10-7000 levels of nested collections, trailing garbage, 2-4 combined mutations, and " +
+			"2^32-1, byte-swapped small counts, and counts whose product with an element size of 2-64 bytes wraps around 2^32 to a small number; 1.7% of the base encodings carry a really present array of 1024-3000 points so that a count can be inflated behind full read blocks), unknown/extended type codes, bad byte-order flags, 10-7000 levels of nested collections, trailing garbage, 2-4 combined mutations, and " +
 			"random bytes; hex additionally upper case, odd length, non-hex characters. GeoJSON: documents from a grammar (well-shaped, noisy arity/scalars/depth, wrong depth, " +
 			"missing/duplicate/extra keys, non-string type, 50-30000 levels of arrays, huge/tiny numbers, garbage bytes) and mutated valid encodings; Geometry values with " +
 			"[]interface{}, []float64, fully typed [][]float64... slices, int, NaN/Inf and nil-pointer shapes; decoded geometries are also re-encoded with ToGeoJSON and decoded with FromGeoJSON. Oracle per call: no panic; exactly one of geometry/error; geometry well-formed; heap bytes allocated during " +
